@@ -316,7 +316,7 @@ func printManifest() {
 		Technique   string         `json:"technique"`
 	}
 	var checks []check
-	var na []map[string]string
+	na := []map[string]string{}
 	all := []string{}
 	for i := 1; i <= 19; i++ {
 		all = append(all, fmt.Sprintf("C%02d", i))
